@@ -419,7 +419,9 @@ def bp2(img, threshold):
                 rep.check(same_value(off, want_off), "H5.padding-offset", "%s[store %d]: %s offset == (n*padding)//2 - n//2 on axis %d"
                           % (f.fq, (n_ok + 1) // 2, label, axis),
                           "offset removed from the %s centroid is %s, expected %s" % (label, nf(off), nf(want_off)), f.where())
-    if n_ok < 4:
+    # one store statement reached by both rank paths (the ranks are normalised by a helper before the loop) is checked once
+    n_sites_ = len(set(s_[4] for s_ in I.store_log if s_[0] == f.fq and s_[5] == "=" and isinstance(s_[2], tuple) and len(s_[2]) == 2))
+    if n_ok < 4 and not (n_ok >= 2 and n_sites_ == 1):
         rep.unknown("H5.padding-offset", f.fq, "could not locate the stored (cx, cy) pair on both rank paths (%d)" % n_ok, f.where())
 
     # ---------------------------------------------------------------- H6 quad cell
